@@ -417,3 +417,17 @@ Definition sp_step (s : sp) (e : ev) : sp :=
   end.
 
 Definition sp_run (h : list ev) : sp := fold_left sp_step h sp_init.
+
+(* Roots the collector must leave alone: allocated with new_root, never handed to del/del_root/del_raw
+   by the program and never made the property of a Box (whose destructor would delete them).  Only
+   del_root may finalise them: no collection, no teardown (thread exit, program exit). *)
+Definition keep_step (k : list id * list id) (e : ev) : list id * list id :=
+  match e with
+  | ENew KRoot _ o _ _ => (o :: fst k, snd k)
+  | EDel _ o => (fst k, o :: snd k)
+  | ELink _ (Some o) => (fst k, o :: snd k)
+  | _ => k
+  end.
+Definition roots_kept (h : list ev) : list id :=
+  let k := fold_left keep_step h ([], []) in
+  filter (fun o => negb (s_in (snd k) o)) (fst k).
